@@ -651,7 +651,7 @@ def handleHist (inp impl : Json) : R OpResult := do
         let recovered := match implRes with | some .err => false | _ => true
         holds := holds ++ [("C15.hist_retry_recovers", recovered), ("C06.hist_retry_recovers", recovered)]
         tags := tags ++ ["step:retry-after-fault"]
-      retryOf := if b.isSome && r1 == .err && (ensureRoutesF codec none s pre).2 != .err then some stratTxt else none
+      retryOf := if ev == "step" && b.isSome && r1 == .err && (ensureRoutesF codec none s pre).2 != .err then some stratTxt else none
       match implRes with
       | some (.ok d) =>
         tags := tags ++ [if d then "ensure:done" else "ensure:updated"]
